@@ -68,14 +68,15 @@ ASSUMPTIONS = [
     "the server always delimits a body by Content-Length or chunked encoding; HTTP only (no S3/GCS)",
     "a pre-existing document file with wrong content that Rally keeps (size undeclared or coincidentally equal) is generated only when "
     "its line count differs from the declared one or it is empty; same-size-same-line-count corruption is outside the statement",
-    "wrong content of right length is served / pre-placed only for archive formats whose decompression can notice it (not plain .tar, "
-    "not uncompressed sources)",
+    "wrong content of right length is served / pre-placed only for archive formats whose decompression, the way Rally performs it, "
+    "verifies a checksum: .bz2 .gz .zst .zip .tar.bz2 - not plain .tar, not uncompressed sources, and not .tar.gz/.tgz (tarfile.extractall "
+    "stops at the end-of-archive marker and never reads the gzip trailer, so the CRC is not verified)",
     "pbzip2 / pzstd are absent, so .bz2 / .zst use the library path; .gz uses pigz with library fallback",
     "multi-GB corpora are represented by kilobyte stand-ins; the 50 000-line offset entries by 0.6-1.3 MB files",
     "mtimes of pre-existing files lie in the past (document 1 700 000 000, tar members 1 600 000 000), files written by a run are newer",
 ]
-BUDGET = {"quick": 420, "thorough": 1500}
-WALL_BUDGET_S = {"quick": 70, "thorough": 1200}
+BUDGET = {"quick": 800, "thorough": 1500}
+WALL_BUDGET_S = {"quick": 75, "thorough": 1200}
 REQUIRED_CLASSES = {
     "earlier-run:crashed": 20,
     "offset:stale": 20,
@@ -96,7 +97,6 @@ RETRIABLE = ("short", "cut-chunked", "stall")
 SIG_EMPTY = "empty-doc-accepted"  # F10
 SIG_TORN = "torn-offset-table-trusted"  # F11 (a)
 SIG_STALE = "stale-offset-table-trusted"  # F11 (b)
-SIG_TARGZ = "corrupt-targz-accepted"
 
 _SERVER = None
 _URLLIB3_PROXY = None
@@ -292,9 +292,9 @@ def _normalise(case):
     if fmt == "plain":
         case["disk"]["archive"] = ["missing"]
         case["decl"]["compressed"] = "none"
-    if case["disk"]["archive"][0] == "corrupt" and fmt not in disk.CHECKSUMMED + (".tar.gz", ".tgz"):
+    if case["disk"]["archive"][0] == "corrupt" and fmt not in disk.CHECKSUMMED:
         case["disk"]["archive"] = ["truncated", 700]
-    if fmt in ("plain", ".tar"):
+    if fmt not in disk.CHECKSUMMED:
         case["script"] = [o if o[0] != "corrupt" else ["short", 512] for o in case["script"]]
     ref = disk.reference_offset_table(_published(case))
     if case["disk"]["offset"][0] == "truncated":
@@ -336,9 +336,6 @@ def _static_region(case):
                 return SIG_STALE
             if kept and d0 != p and len(d0) > 0:
                 return SIG_STALE  # the line-count check is skipped together with the rebuild
-    if case["format"] in (".tar.gz", ".tgz"):
-        if case["disk"]["archive"][0] == "corrupt" or any(o[0] == "corrupt" for o in case["script"]):
-            return SIG_TARGZ
     return None
 
 
@@ -362,31 +359,40 @@ _TERMINAL = st.one_of(
 _OK = st.sampled_from([["ok"], ["ok"], ["ok"], ["ok-chunked"], ["ok-206"]])
 
 
+def _weighted(*pairs):
+    return st.sampled_from([v for v, w in pairs for _ in range(w)])
+
+
 @st.composite
 def _segment(draw):
-    kind = draw(st.sampled_from(["ok", "ok", "retry-ok", "retry-ok", "retry-ok", "boundary", "exhaust", "terminal", "mixed", "stall"]))
+    kind = draw(_weighted(("ok", 3), ("retry-ok", 4), ("boundary", 1), ("exhaust", 1), ("status", 2), ("corrupt", 2), ("garbage", 2), ("mixed", 2), ("stall", 1)))
+    faults = lambda lo, hi: [list(o) for o in draw(st.lists(_FAULT, min_size=lo, max_size=hi))]  # noqa: E731
     if kind == "ok":
         return [draw(_OK)]
     if kind == "retry-ok":
-        return [list(o) for o in draw(st.lists(_FAULT, min_size=1, max_size=4))] + [draw(_OK)]
+        return faults(1, 4) + [draw(_OK)]
     if kind == "boundary":  # the 11th attempt is the last one
         n = draw(st.sampled_from([9, 10, 10, 11]))
         f = list(draw(st.sampled_from([("short", 512), ("cut-chunked", 512), ("short", 0)])))
         return [f] * n + [draw(_OK)]
     if kind == "exhaust":
         return [["short", draw(st.integers(0, 1023))]] * 11
-    if kind == "terminal":
-        return [list(o) for o in draw(st.lists(_FAULT, max_size=2))] + [list(draw(_TERMINAL))]
+    if kind == "status":
+        return faults(0, 2) + [["status", draw(st.sampled_from([403, 404, 500, 503]))]]
+    if kind == "corrupt":
+        return faults(0, 1) + [["corrupt"]]
+    if kind == "garbage":
+        return faults(0, 1) + [["garbage", draw(st.integers(0, 2))]]
     if kind == "stall":
-        return [["stall", draw(st.sampled_from([0, 512]))]] + [list(o) for o in draw(st.lists(_FAULT, max_size=1))] + [draw(_OK)]
+        return [["stall", draw(st.sampled_from([0, 512]))]] + faults(0, 1) + [draw(_OK)]
     return [list(o) for o in draw(st.lists(st.one_of(_FAULT, _FAULT, _TERMINAL, _OK.map(tuple)), max_size=6))]
 
 
 @st.composite
 def _case(draw):
-    big = draw(st.integers(0, 7)) == 0
+    big = draw(_weighted((False, 7), (True, 1)))
     if big:
-        meta = draw(st.booleans()) and draw(st.booleans())
+        meta = draw(_weighted((False, 3), (True, 1)))
         lines = draw(st.sampled_from([50000, 50001, 50001, 100001]))
         if meta:
             lines = 50002 if lines in (50000, 50001) else 100002
@@ -395,12 +401,12 @@ def _case(draw):
     else:
         docs = {"n": draw(st.sampled_from([1, 1, 2, 3, 5, 17, 60]) | st.integers(1, 60)), "style": draw(st.sampled_from(["mixed", "mixed", "ascii"])),
                 "eol": draw(st.sampled_from(["lf", "lf", "crlf"])), "trailing": draw(st.sampled_from([True, True, False])),
-                "meta": draw(st.booleans()) and draw(st.booleans()), "salt": draw(st.integers(0, 2))}
+                "meta": draw(_weighted((False, 3), (True, 1))), "salt": draw(st.integers(0, 2))}
     fmt = draw(st.sampled_from(disk.FORMATS + [".bz2", ".gz", "plain", "plain"]))
     decl = {
-        "compressed": draw(st.sampled_from(["right", "right", "none", "none", "wrong"])),
-        "uncompressed": draw(st.sampled_from(["right", "right", "none", "none", "none", "wrong"])),
-        "count": draw(st.sampled_from(["right", "right", "right", "right", "wrong"])),
+        "compressed": draw(_weighted(("right", 3), ("none", 4), ("wrong", 1))),
+        "uncompressed": draw(_weighted(("right", 3), ("none", 4), ("wrong", 1))),
+        "count": draw(_weighted(("right", 8), ("wrong", 1))),
         "delta": draw(st.sampled_from([-7, -1, 1, 9])),
         "count_delta": draw(st.sampled_from([-1, 1, 3])),
     }
@@ -422,8 +428,41 @@ def _case(draw):
         off = ["truncated", draw(st.integers(0, 40))]
     age = draw(st.sampled_from(["older", "older", "older", "same", "newer"]))
     tmp = draw(st.sampled_from([None, None, None, 0, 400]))
+    path = draw(st.sampled_from(["prepare", "prepare", "bundled"]))
+    base_url = draw(_weighted(("present", 8), ("trailing-slash", 1), ("absent", 1)))
+    offline = draw(_weighted((False, 11), (True, 1)))
+
+    # what the preparation will have to do: fetch, work with local files, or whatever the free draws above give
+    plan = draw(_weighted(("download", 5), ("local", 3), ("free", 2)))
+    if plan == "download":
+        offline = False
+        if base_url == "absent":
+            base_url = "present"
+        if path == "bundled":  # a present file of wrong size is an error there, not a reason to fetch
+            doc, arch = ["missing"], ["missing"]
+        else:
+            if doc[0] == "correct":
+                doc = ["missing"]
+            elif doc[0] != "missing":
+                decl["uncompressed"] = "right"  # the size check rejects the file
+            if arch[0] in ("correct", "corrupt"):
+                arch = ["missing"]
+            elif arch[0] != "missing":
+                decl["compressed"] = "right"
+    elif plan == "local":
+        if draw(_weighted(("decompress", 2), ("use", 1))) == "decompress":
+            if fmt == "plain":
+                fmt = draw(st.sampled_from(disk.FORMATS))
+            arch = draw(_weighted((["correct"], 6), (["corrupt"], 1)))
+            if doc[0] == "correct":
+                doc = ["missing"]
+            elif doc[0] != "missing":
+                decl["uncompressed"] = "right"
+        elif doc[0] == "missing":
+            doc = ["correct"]
+
     script = draw(_segment())
-    mode = draw(st.sampled_from(["single", "single", "single", "single", "crash", "crash", "crash", "complete"]))
+    mode = draw(_weighted(("single", 4), ("crash", 3), ("complete", 1)))
     earlier = None
     if mode == "crash":
         earlier = {"crash_after": draw(st.integers(0, 9)), "torn": draw(st.sampled_from([None, None, 1, 300, 700, 1000, 1023]))}
@@ -435,10 +474,10 @@ def _case(draw):
         "docs": docs,
         "format": fmt,
         "decl": decl,
-        "base_url": draw(st.sampled_from(["present"] * 8 + ["trailing-slash", "absent"])),
-        "offline": draw(st.integers(0, 11)) == 0,
-        "test_mode": draw(st.integers(0, 5)) == 0,
-        "path": draw(st.sampled_from(["prepare", "prepare", "bundled"])),
+        "base_url": base_url,
+        "offline": offline,
+        "test_mode": draw(_weighted((False, 5), (True, 1))),
+        "path": path,
         "disk": {"doc": doc, "archive": arch, "offset": off, "offset_age": age, "tmp": tmp},
         "script": script[:12],
         "earlier": earlier,
@@ -721,13 +760,12 @@ def run_case(case, obs):
                 table_path = doc_path + ".offset"
                 table_kept = table_path in before and table_path in after and before[table_path][1:] == after[table_path][1:]
                 if data != published:
-                    arch_path = os.path.join(os.path.dirname(doc_path), env.archive_name) if env.archive_name else None
                     if len(data) == 0 and env.unc is None:
                         sig = SIG_EMPTY
-                    elif case["format"] in (".tar.gz", ".tgz") and arch_path in after and after[arch_path][2] == httpfault.corrupt(_archive_bytes(case)):
-                        sig = SIG_TARGZ
                     elif table_kept and after[table_path][1] >= after[doc_path][1]:
-                        sig = SIG_STALE
+                        # the table is trusted, so the line count is never compared; SIG_TORN if the table is the unfinished
+                        # work of the crashed earlier run, SIG_STALE if it was there from the start
+                        sig = SIG_STALE if initial.get(table_path, (None,))[1:] == after[table_path][1:] else SIG_TORN
                     else:
                         sig = "doc-content-mismatch"
                     common = os.path.commonprefix([data, published])
@@ -851,5 +889,4 @@ PROBES = {
         decl={"compressed": "right", "uncompressed": "right"}, disk={"doc": ["missing"], "archive": ["correct"], "offset": ["stale"], "offset_age": "older"},
         script=[],
     ),
-    SIG_TARGZ: _base_case(format=".tar.gz", docs={"n": 40}, disk={"archive": ["corrupt"]}, script=[]),
 }
